@@ -4,6 +4,7 @@ mod c02;
 mod c09;
 mod c12;
 mod conv;
+mod crypt_ref;
 mod c13;
 mod c14;
 mod templates;
@@ -104,6 +105,7 @@ fn real_main() {
                 "two_leaf" => families::Family::TwoLeaf,
                 "cyclic_parents" => families::Family::CyclicParents,
                 "deep_tree" => families::Family::DeepTree,
+                "rich_encrypted" => families::Family::RichEncrypted,
                 _ => families::Family::Rich,
             };
             let mut pool = docs::Pool::new(&repo, env_seed());
